@@ -14,6 +14,7 @@
 
 
 import warnings
+from copy import deepcopy
 
 import torch
 
@@ -69,7 +70,7 @@ class ComplexWaveFunction(WaveFunctionBase):
             _warn_on_missing_gpu(gpu)
             self.rbm_am = module.to(self.device)
             self.rbm_am.device = self.device
-            self.rbm_ph = module.to(self.device).clone()
+            self.rbm_ph = deepcopy(module.to(self.device))
             self.rbm_ph.device = self.device
 
         self.num_visible = self.rbm_am.num_visible
